@@ -454,6 +454,14 @@ func (x *Exec) loopHead(fr *Frame, b *ssa.BasicBlock, li *loopInfo, ins []edge, 
 			}
 		}
 	}
+	// an arbitrary iteration: the allocation frontier has moved, every existing value lies below it
+	{
+		oldTop := fmt.Sprintf("(+ %s %d)", x.allocBase, x.allocN)
+		nb := x.sc.freshConst("allocBase", "Int")
+		x.sc.assert(le(oldTop, nb))
+		x.allocBase = nb
+		x.allocN = 0
+	}
 	li.phiVals = map[*ssa.Phi]Val{}
 	for _, in := range b.Instrs {
 		phi, ok := in.(*ssa.Phi)
@@ -469,6 +477,7 @@ func (x *Exec) loopHead(fr *Frame, b *ssa.BasicBlock, li *loopInfo, ins []edge, 
 		c := x.sc.freshConst("phi_"+phi.Comment, x.so.sortOf(phi.Type()))
 		v := Val{T: phi.Type(), S: c}
 		x.assumeRange(v)
+		x.assumeAllocated(v)
 		fr.vals[phi] = v
 		li.phiVals[phi] = v
 	}
@@ -647,4 +656,18 @@ func (x *Exec) lookupVar(fr *Frame, b *ssa.BasicBlock, upto int, name string, st
 		}
 	}
 	return Val{}, false
+}
+
+// assumeAllocated: a value that exists now refers only to objects allocated so far.
+func (x *Exec) assumeAllocated(v Val) {
+	if v.S == "" || v.T == nil {
+		return
+	}
+	top := fmt.Sprintf("(+ %s %d)", x.allocBase, x.allocN)
+	switch under(v.T).(type) {
+	case *types.Pointer, *types.Map, *types.Chan:
+		x.sc.assert(le(v.S, top))
+	case *types.Slice:
+		x.sc.assert(le(app("s_reg", v.S), top))
+	}
 }
